@@ -245,7 +245,13 @@ pub fn has_nested_container(v: &Dyn) -> bool {
 pub fn roundtrip(val: &Dyn, opts: &SerOpts) -> Result<String, (String, String)> {
     let text = match guarded(|| serde_saphyr::to_string_with_options(val, opts.to_lib())) {
         Err(p) => return Err(("panic_ser".into(), p)),
-        Ok(Err(e)) => return Err(("ser_error".into(), format!("serialize failed: {}", e))),
+        // (the refusal of composite keys inside flow collections is an open finding of its own: keep it apart from
+        // every other serialization error)
+        Ok(Err(e)) => {
+            let msg = e.to_string();
+            let clause = if msg.contains("non-scalar key") { "ser_error_non_scalar_key_in_flow" } else { "ser_error" };
+            return Err((clause.into(), format!("serialize failed: {}", msg)));
+        }
         Ok(Ok(t)) => t,
     };
     match raw::raw_doc_count(&text) {
